@@ -495,6 +495,8 @@ class Impl(object):
                 study.configure_study()
                 study.setup_environment()
                 study.stage()
+                # a step without a single staged instance was silently lost
+                names = [n for n in names if study.step_combos.get(n)]
             if not all(isinstance(n, str) for n in names):
                 return ("I",), "non-string step name in Study.values"
             return ("A", names), ""
@@ -1198,10 +1200,16 @@ Definition num_case_ok (c : Z * Z * Z) : bool :=
 # run
 # ----------------------------------------------------------------------------
 def load_corpus():
+    """-> [(tag, doc or None, json)]; an entry with "yaml_text" instead of "doc"
+    (documents the model's type cannot express, e.g. a key that is not a
+    string) has doc None and is run through the Python-side monitor only"""
     res = []
     for fn in sorted(glob.glob(os.path.join(CORPUS, "*.json"))):
         try:
             j = json.load(open(fn))
+            if "yaml_text" in j and "doc" not in j:
+                res.append(("corpus:" + os.path.basename(fn), None, j))
+                continue
             res.append(("corpus:" + os.path.basename(fn), from_json(j["doc"]), j))
         except Exception as e:
             res.append(("corpus:" + os.path.basename(fn), None, {"error": repr(e)}))
@@ -1229,6 +1237,26 @@ def python_monitor(doc, obs):
         if names != obs[1] or len(set(names)) != len(names):
             return False
     return True
+
+
+def raw_text_case(ck, impl, tag, text):
+    """a YAML text outside the model's document type: never an internal error,
+    accepted => exactly the text's steps"""
+    obs, detail = impl.run(text, False)
+    ck.count(("raw", text), nontrivial=True)
+    ok = obs[0] != "I"
+    if obs[0] == "A":
+        try:
+            ld = impl.yaml.load(io.StringIO(text), impl.yaml.FullLoader)
+            ok = [s["name"] for s in ld["study"]] == obs[1]
+        except Exception:
+            ok = False
+    if not ok:
+        ck.violation("%s: implementation %s (%s) -- internal error or changed step list (raw YAML text, "
+                     "Python-side monitor)" % (tag, obs[0], detail),
+                     {"property": PID, "tag": tag, "yaml_text": text,
+                      "impl": {"class": obs[0], "steps": obs[1] if obs[0] == "A" else None, "detail": detail}})
+    return ok
 
 
 def build_cases(ck, impl, rng, tier):
@@ -1386,7 +1414,9 @@ def run(ck):
     check_enums(ck, impl, prios)
     # known-finding witnesses
     for t, d, j in corpus:
-        if d is None:
+        if d is None and "yaml_text" in j:
+            raw_text_case(ck, impl, t, j["yaml_text"])
+        elif d is None:
             ck.mismatch("unreadable corpus file %s" % t, j)
     ck.cov["rule"] = ("documents = corpus + repo samples + generated valid specifications (full range of "
                       "schema-admitted values per key) + every single-point mutation of a small document "
@@ -1431,8 +1461,14 @@ def has_dup_keys(d):
 def replay(ck, path):
     j = json.load(open(path))
     cj = j.get("case") or j
-    doc = from_json(cj["doc"])
     impl = Impl()
+    if "yaml_text" in cj and "doc" not in cj:
+        ok = raw_text_case(ck, impl, cj.get("tag", "replay"), cj["yaml_text"])
+        print("document      :", cj["yaml_text"][:2000])
+        print("implementation:", impl.run(cj["yaml_text"], False))
+        print("verdict       :", "ok" if ok else "FAIL")
+        return 0 if ok else 1
+    doc = from_json(cj["doc"])
     obs, detail, bits = observe(impl, doc)
     lit = "(%s, %s, (%s, %s))" % (g_jv(doc), g_result(obs), common.g_list([common.g_bool(b) for b in bits]),
                                  common.g_bool(comparable(doc)))
